@@ -46,6 +46,12 @@ type v11Source struct {
 	// AnySource.ProcessSegments is one atomic step of the core loop and nothing could ever run "during" a block).
 	procPoints bool
 	began      chan struct{} // one token per block whose processing has begun (procPoints)
+	// data timeline (C17): gapBefore[k] is the stretch of data time lost just before the k-th block (0-based), as when a
+	// source drops data or stalls: the block's frame number and time stamp both jump ahead by it, consistently. Without
+	// gaps the blocks are contiguous and each covers 8 or 24 ms of data time.
+	gapBefore map[int]time.Duration
+	nmade     int           // blocks made so far (producer thread only)
+	skipped   time.Duration // data time lost so far (producer thread only)
 }
 
 func v11New(after string, nblocks int) *v11Source {
@@ -173,9 +179,14 @@ func (s *v11Source) block() *dataBlock {
 	if s.pulses {
 		n = 24
 	}
+	if g := s.gapBefore[s.nmade]; g > 0 {
+		s.skipped += g
+		s.frame += int(g / vPeriod)
+	}
+	s.nmade++
 	b := new(dataBlock)
 	b.segments = make([]DataSegment, s.nchan)
-	now := time.Now()
+	now := time.Now().Add(s.skipped)
 	for ch := range b.segments {
 		d := make([]RawType, n)
 		for i := range d {
